@@ -70,6 +70,9 @@ pub(crate) mod handle;
 #[cfg(feature = "verif")]
 pub mod verif;
 
+#[cfg(feature = "verif")]
+pub mod verif_caps;
+
 // TODO: https://github.com/paritytech/litep2p/issues/268 Periodically clean up idle peers.
 // TODO: https://github.com/paritytech/litep2p/issues/344 add lots of documentation
 
@@ -342,7 +345,12 @@ pub struct TransportManager {
     pending_connections: HashMap<ConnectionId, PeerId>,
 
     /// Connection limits.
+    #[cfg(not(feature = "verif"))]
     connection_limits: limits::ConnectionLimits,
+
+    /// Connection limits (verification build: every call is logged, see `limits::verif_log`).
+    #[cfg(feature = "verif")]
+    connection_limits: limits::verif_log::LoggedLimits,
 
     /// Opening connections errors.
     opening_errors: HashMap<ConnectionId, Vec<(Multiaddr, DialError)>>,
@@ -449,7 +457,10 @@ impl TransportManagerBuilder {
             cmd_rx,
             event_tx,
             pending_connections: HashMap::new(),
+            #[cfg(not(feature = "verif"))]
             connection_limits: limits::ConnectionLimits::new(self.connection_limits_config),
+            #[cfg(feature = "verif")]
+            connection_limits: limits::verif_log::LoggedLimits::new(self.connection_limits_config),
             opening_errors: HashMap::new(),
             pending_accept: FuturesUnordered::new(),
         }
